@@ -79,6 +79,7 @@ func opCase(name string, params []interface{}, tags ...string) Case {
 	for i, x := range params {
 		vp[i] = x
 	}
+	before := fmt.Sprint(params)
 	var v eval.Value
 	var err error
 	ok, pan := true, interface{}(nil)
@@ -90,6 +91,10 @@ func opCase(name string, params []interface{}, tags ...string) Case {
 		panic("no builtin " + name)
 	}
 	obs := coqRes(v, err)
+	if after := fmt.Sprint(params); after != before {
+		// the operator changed its operands (e.g. sorted a list in place): never the model's outcome
+		obs, v, err = "Err (EOther 4243)", nil, fmt.Errorf("OPERANDS MODIFIED: %s -> %s", clip(before, 120), clip(after, 120))
+	}
 	if pan != nil {
 		// the operator panicked: an outcome the model never has (compared as a mismatch, reported with the input)
 		obs, v, err = "Err (EOther 4242)", nil, fmt.Errorf("PANIC: %v", pan)
@@ -190,6 +195,19 @@ func genC18(c *RunCtx) []*Batch {
 					}
 				}
 				b.Cases = append(b.Cases, opCase(name, ps, fmt.Sprintf("count:%d", cnt)))
+			}
+		}
+	}
+	// equality family on every ordered pair (and some triples) of zero-like and small values of different kinds:
+	// 0, false, "", nil must all be different from one another
+	kinds := []interface{}{int64(0), int64(1), false, true, "", "x", "0", nil, int64(-1)}
+	for _, name := range []string{"eq", "ne", "=", "==", "!="} {
+		for _, x := range kinds {
+			for _, y := range kinds {
+				b.Cases = append(b.Cases, opCase(name, []interface{}{x, y}, "eq-kinds"))
+				if r.Intn(4) == 0 {
+					b.Cases = append(b.Cases, opCase(name, []interface{}{x, y, kinds[r.Intn(len(kinds))]}, "eq-kinds"))
+				}
 			}
 		}
 	}
